@@ -111,6 +111,13 @@ def rulesets(tier):
         gl = [(2.0 * (n - i) / (n * (n + 1)), ['v%d' % i]) for i in range(n)]
         out.append(('%d groups, cumulative rounding' % n, {'G': gl}, [(1.0, ['G'])]))
         out.append(('%d equal values in one group' % n, {'G': [(1.0 / n, ['w%d' % i for i in range(n)])]}, [(1.0, ['G'])]))
+    # the same analysis on grammars produced by the real loader under --skip_brute / --all_lower (Markov line in the middle of the structure list):
+    # the reference is the rescaled / collapsed ruleset
+    disk = dict(D.TERMINALS[1])
+    disk.update(grammar=[('D1', .35), ('M', .30), ('A1D1', .2), ('D2', .15)], prince=D.PRINCE)
+    for sb, sc in ((True, False), (True, True), (False, True)):
+        types_l, base_l = R.ref_loaded(disk, sb, sc)
+        out.append(('loaded from disk, skip_brute=%s all_lower=%s' % (sb, sc), types_l, base_l, (disk, sb, sc)))
     out.append(('renormalised (skip_brute style)', {'D1': t['D1'], 'O1': t['O1']}, [(.3 / .7, ['D1']), (.25 / .7, ['O1']), (.15 / .7, ['D1', 'O1'])]))
     return out
 
@@ -160,10 +167,19 @@ def reps(ivs):
 
 
 def run_walk(shard, tier, acc):
-    name, types, base = rulesets(tier)[shard[1]]
+    entry = rulesets(tier)[shard[1]]
+    name, types, base = entry[:3]
     tree.use()
     gm = tree.imp('lib_guesser.pcfg_grammar')
-    g = R.mem_grammar(gm.PcfgGrammar, types, base)
+    if len(entry) > 3:
+        spec_l, sb_l, sc_l = entry[3]
+        root_l = tree.mkdtemp('pcfgmc-c16d-')
+        R.write_ruleset(root_l, spec_l)
+        g = D.load(gm.PcfgGrammar, root_l, sb_l, sc_l, 'Grammar')
+        if sb_l:
+            base = [(p, r) for p, r in base]
+    else:
+        g = R.mem_grammar(gm.PcfgGrammar, types, base)
     case0 = {'ruleset': name}
     base_iv = intervals([p for p, _ in base])
     measure = Counter()
@@ -192,7 +208,8 @@ def run_walk(shard, tier, acc):
                     # at the two extremes of a variable draw (0.0 and the largest double < 1) the floating-point cumulative sum may
                     # fall a rounding error short: any group is accepted there (measure 2^-53), only a crash is a failure;
                     # for the structure draw the extreme must still select a structure
-                    anycell = (k > 0 and v in (0.0, TOP))
+                    # the group of a Markov variable is of no consequence (such a walk gives no honeyword and the session walks again): any group is accepted
+                    anycell = (k > 0 and (v in (0.0, TOP) or tname[0] == 'M'))
                     explore(prefix + [v], expect + [-1 if anycell else min(cell)], meas * w if meas is not None else None)
                 return
             except Exception as e:
@@ -227,6 +244,13 @@ def run_walk(shard, tier, acc):
         explore([], [], Fraction(1))
         # distribution: measures add up to the ruleset probabilities
         for si, (bp, reps_) in enumerate(base):
+            if any(t[0] == 'M' for t in reps_):
+                # a Markov structure yields no honeyword: only the measure of the structure as a whole matters
+                want = Fraction(bp) / sum(Fraction(p) for p, _ in base)
+                got = sum((m for (sj, _), m in measure.items() if sj == si), Fraction(0))
+                if abs(got - want) > Fraction(1, 10 ** 12):
+                    acc.fail(dict(case0, structure=si), '[%s] the Markov structure is drawn with measure %r, its probability is %r' % (name, float(got), float(want)), 'measure')
+                continue
             for idx in itertools.product(*[range(len(types[t])) for t in reps_]):
                 pt = tuple(zip(reps_, idx))
                 want = Fraction(bp) / sum(Fraction(p) for p, _ in base)
